@@ -40,10 +40,18 @@ type c06Case struct {
 	PriorGen bool          `json:"priorgen,omitempty"` // history in the process: the OTHER generation of the same set (same names, lengths, first 16 KiB => same file ids and set id; other content) was verified first, in a directory of its own
 	Dec      *decProtoCase `json:"dec,omitempty"`      // operation sequences (incl. loads that fail half-way) on one Decoder object over a foreign layout
 	Stray    int           `json:"stray,omitempty"`    // a file matching <base>.*.par2 that holds only another set's packets: 1 = listed first, 2 = between the volumes, 3 = last, 4 = first and last
+	Creator  string        `json:"creator,omitempty"`  // client id in the creator packets (default "refwriter"); lengths that are and are not multiples of 4 (no padding / padding)
 	CrossDup int           `json:"crossdup,omitempty"` // recovery blocks stored in more than one volume file: 1 = the first block of the first volume also at the end of the last volume, 2 = every block also in the next volume
 	DC       int           `json:"dc,omitempty"`       // Repair's double check: 0 = on when an odd number of slices is lost, 1 = on, 2 = off
 	Damage   string        `json:"damage"`             // none, del0, del1, ovw0, ovw1
 	G        int           `json:"g,omitempty"`
+}
+
+func c06Creator(c *c06Case) string {
+	if c.Creator != "" {
+		return c.Creator
+	}
+	return "refwriter"
 }
 
 func c06Default() c06Case {
@@ -130,6 +138,10 @@ func c06Alternatives(allPerms bool) []func(*c06Case) {
 	for dc := 1; dc <= 2; dc++ {
 		dc := dc
 		alts = append(alts, func(c *c06Case) { c.DC = dc })
+	}
+	for _, id := range []string{"x", "par2", "12345", "abcdefgh", "QuickPar 0.9", "par2cmdline v0.8", "a client with a rather long name, version 1.2.3 (build 45678)"} {
+		id := id
+		alts = append(alts, func(c *c06Case) { c.Creator = id })
 	}
 	for _, vn := range [][]string{{"x", "y", "z"}, {"a b", "c d", "e"}, {"v[1]", "v[2]", "v[3]"}, {"v*", "w?", "u\\"}, {"vol000+01", "vol001+02", "vol003+99"}, {"par2", "vol.par2", ".."}, {"", "a", "b"}, {"x", "", "y"}} { // "" gives <base>..par2: the '*' of <base>.*.par2 matches nothing
 		vn := vn
@@ -377,7 +389,7 @@ func c06Run(ci interface{}, r *core.Rec) {
 	copy(unkT[:], unkTypes[c.UnkType%len(unkTypes)])
 	unknownPkt := rpar2.Packet(unkSet, unkT, unkBody)
 
-	groups := [][]byte{set.CreatorPacket("refwriter"), set.MainPacket()}
+	groups := [][]byte{set.CreatorPacket(c06Creator(c)), set.MainPacket()}
 	for _, f := range set.Files {
 		groups = append(groups, set.DescPacket(f), set.IFSCPacket(f))
 	}
